@@ -3,8 +3,15 @@
 //! note: node_announcement address descriptors: SocketAddress::len() (the value written into / checked against the addresses length field) equals the number of bytes SocketAddress::write() emits after the type byte, for every address including 255-byte hostnames
 //! trusted: R16: `match self { &Variant { ref x, .. } => ..}` on a reference scrutinee is written with default binding modes (`Variant { x, .. }`): same bindings by reference (Verus has no `&` patterns); the mutants are written in the rewritten form
 //! trusted: R5: the writer generic W is instantiated with a byte-counting writer (CountWriter: ghost number of bytes written so far); the Writeable impls of u8, u16, [u8; N] and Hostname are external_body stubs that add their wire size (1, 2, N, 1 + hostname length: impl_writeable_primitive!, impl_array!, `impl Writeable for Hostname` in util/ser.rs) and may fail; Hostname is a skeleton {bytes} with external_body len() (u8: the type invariant of Hostname is length <= 255); io::Error opaque
+//! trusted: assume_specification for core::cmp::max / core::cmp::min (std definitions): present in every unit so that a change that introduces them is verified instead of being rejected by the tool
 use vstd::prelude::*;
 verus! {
+use vstd::std_specs::cmp::*;
+use core::cmp;
+pub assume_specification<T: core::cmp::Ord>[core::cmp::max::<T>](a: T, b: T) -> (r: T)
+    ensures T::obeys_cmp_spec() ==> r == (if b.cmp_spec(&a) == core::cmp::Ordering::Less { a } else { b });
+pub assume_specification<T: core::cmp::Ord>[core::cmp::min::<T>](a: T, b: T) -> (r: T)
+    ensures T::obeys_cmp_spec() ==> r == (if b.cmp_spec(&a) == core::cmp::Ordering::Less { b } else { a });
 pub struct Error {}
 pub struct CountWriter { pub n: Ghost<int> }
 pub trait Writeable {
